@@ -1539,7 +1539,8 @@ func (p *Parser) parseTemplateLiteral(precLeft OpPrec) (template TemplateExpr) {
 	if precLeft < OpMember {
 		template.Prec = OpCall
 	}
-	for p.tt == TemplateStartToken || p.tt == TemplateMiddleToken {
+	for len(template.List) == 0 && p.tt == TemplateStartToken || 0 < len(template.List) && p.tt == TemplateMiddleToken {
+		// the start of another template on a new line behind the expression does not continue this one
 		tpl := p.data
 		p.next()
 		template.List = append(template.List, TemplatePart{tpl, p.parseExpression(OpExpr)})
